@@ -2,7 +2,7 @@
 import itertools
 
 from .. import shapes as S
-from ..core import Case
+from ..core import shash, Case
 from .common import place, CTX
 
 # field alphabet: s shown, r renamed, i ignored, m method, x renamed+method (name first), y method+renamed (method first)
@@ -30,7 +30,7 @@ def combine(meta, extra):
         return 'Debug(%s)' % extra
     if meta.startswith('Debug = '):
         return 'Debug(name = %s, %s)' % (meta[len('Debug = '):], extra)
-    return meta[:-1] + ', ' + extra + ')' if hash(meta) % 2 else 'Debug(' + extra + ', ' + meta[len('Debug('):]
+    return meta[:-1] + ', ' + extra + ')' if shash(meta) % 2 else 'Debug(' + extra + ', ' + meta[len('Debug('):]
 
 
 def field_meta(ch, key, sp):
